@@ -144,11 +144,19 @@ def run(ctx):
                 spec['grammar'] = []
             spec['grammar'].insert(pos, ['M', pm])
             spec['omen_prob'] = [['1', '0.25'], ['2', '0.125']]
+        if i % 4 == 0:
+            # the last record of the mask files (and of the last word file) is followed by an empty line: harmless to a file read on its
+            # own, and the files read after it hold what they hold whether or not the mask files were opened at all (--all_lower)
+            spec['blank_last_line'] = [t for t in spec['terminals'] if t[0] == 'C'] + sorted(t for t in spec['terminals'] if t[0] == 'A')[-1:]
         d = common.write_ruleset(os.path.join(rr, f"c14_{i % 10}"), spec)
         try:
             g0 = common.load_grammar(d)
             g1 = common.load_grammar(d, skip_brute=True)
             g2 = common.load_grammar(d, skip_case=True)
+            diff_ = sorted(t for t in g0.grammar if t[0] != 'C' and g0.grammar[t] != g2.grammar.get(t))
+            if diff_:
+                viol.append({'property': 'C14', 'kind': 'all-lower-changes-other-lists', 'variables': diff_[:4],
+                             'default': str(g0.grammar[diff_[0]])[:160], 'all_lower': str(g2.grammar.get(diff_[0]))[:160], 'witness': {'spec': spec}})
         except Exception as e:
             viol.append({'property': 'C14', 'kind': 'load-raised', 'error': repr(e)[:200], 'witness': {'spec': spec}})
             continue
